@@ -16,7 +16,7 @@ from mc import impl
 from mc.framework import Check
 from mc.ref import render, ast as A, universe as U
 from mc.ref.meaning import Model, Invalid
-from checks.c01 import header_programs
+from checks.c01 import header_programs, literal_pair_programs
 
 
 def pool(tier):
@@ -30,6 +30,9 @@ def pool(tier):
     hp = [p for p in header_programs(tier) if U.valid(p)]
     step = max(1, len(hp) // n_hdr)
     out += hp[::step][:n_hdr]
+    # two statements in one program that differ in one number (hash / int-float coincidences)
+    pairs = [p for p in literal_pair_programs(tier) if U.valid(p)]
+    out += pairs[:: max(1, len(pairs) // (60 if tier == "quick" else 300))]
     return out
 
 
